@@ -259,6 +259,31 @@ def check_hash(case, res, monitor=False):
                                 case=dict(kind="hash", **case),
                                 witness=dict(disasm=ebpfvm.disasm(ld.code)))
                             return mon
+            # a second instance of the same program class is created and
+            # loaded while this one is alive (one per interface): it has its
+            # own cells, this one's keep their values
+            if case["ops"] and len(str(case["vars"])) % 2 == 0:
+                try:
+                    e2 = type(e)()
+                    ld2 = prog.Loaded(e2, sess)
+                    ld2.load()
+                    ld2.run_k(bytes(64))
+                    res.count("hash_second_instances_of_the_class")
+                    for i in cells:
+                        got = raw(i)
+                        if got != cells[i]:
+                            res.violation(
+                                "unexplained:hash-instances-share-cells",
+                                f"after a second instance of the program "
+                                f"class was loaded and run, cell "
+                                f"{case['vars'][i]} of the first holds "
+                                f"{got if got is None else hex(got)}, was "
+                                f"{cells[i]:#x}",
+                                case=dict(kind="hash", **case))
+                            return mon
+                    ld2.close()
+                except (OSError, AssembleError):
+                    res.count("hash_second_instance_failed")
             # the same object is loaded a second time (a restart after
             # close(), a reload): every variable holds its default again
             if case["ops"] and sum(map(len, map(str, case["vars"]))) % 3 == 0:
